@@ -10,28 +10,40 @@ VERIF=$(pwd)
 REPO=${VERIF_REPO:-/repo}
 BIN=${VERIF_BIN:-$VERIF/.bin}
 BUILD=${VERIF_BUILD:-$VERIF/.build}
-export VERIF_BUILD=$BUILD
 mkdir -p "$BIN" "$BUILD"
+# Everything one invocation builds or writes as scratch is private to it (suffix = tree tag + pid), so that
+# concurrent invocations — also on different copies of the repository — never run each other's binaries.
+TAG=$(echo "$REPO" | md5sum | cut -c1-8)
+SFX=$TAG.$$
+SCR=$BUILD/run.$SFX
+mkdir -p "$SCR"
+export VERIF_BUILD=$SCR
+cleanup() { rm -rf "$SCR" "$BIN"/*."$SFX"; }
+trap cleanup EXIT
+CHILD=
+# a TERM/INT sent to this script (e.g. by timeout(1)) is passed on to the driver and its worker processes
+trap '[ -n "$CHILD" ] && { pkill -TERM -P "$CHILD"; kill -TERM "$CHILD"; } 2>/dev/null; exit 143' TERM INT
+run() { "$@" & CHILD=$!; wait "$CHILD"; local rc=$?; CHILD=; return $rc; }
+# leftovers of invocations that were killed hard (older than 3 hours)
+find "$BIN" "$BUILD" -maxdepth 1 -mmin +180 \( -name 'mc*.*.*' -o -name 'gophersat.*' -o -name 'instr.*' -o -name 'run.*' \) -exec rm -rf {} + 2>/dev/null
 
 build() { # $1 = output name, rest = extra go build flags
   local out=$1; shift
-  local tag
-  tag=$(echo "$REPO" | md5sum | cut -c1-8)
-  local mod=$BUILD/go.$tag.mod
-  sed "s#=> /repo#=> $REPO#" "$VERIF/mc/go.mod" > "$mod"
-  (cd "$VERIF/mc" && go build -modfile="$mod" -tags verif "$@" -o "$BIN/$out" ./cmd/mc) || { echo "ERROR build failed"; exit 2; }
+  MOD=$SCR/go.mod
+  sed "s#=> /repo#=> $REPO#" "$VERIF/mc/go.mod" > "$MOD"
+  cp "$VERIF/mc/go.sum" "$SCR/go.sum" 2>/dev/null
+  (cd "$VERIF/mc" && go build -modfile="$MOD" -tags verif "$@" -o "$BIN/$out.$SFX" ./cmd/mc) || { echo "ERROR build failed"; exit 2; }
 }
 
 build_sched() { # schedule explorer: library rewritten through an overlay generated from $REPO
-  local tag
-  tag=$(echo "$REPO" | md5sum | cut -c1-8)
-  local mod=$BUILD/go.$tag.mod
-  sed "s#=> /repo#=> $REPO#" "$VERIF/mc/go.mod" > "$mod"
-  (cd "$VERIF/tools/instr" && go build -o "$BIN/instr" .) || { echo "ERROR build of instr failed"; exit 2; }
-  local ov=$BUILD/overlay/$tag
+  MOD=$SCR/go.mod
+  sed "s#=> /repo#=> $REPO#" "$VERIF/mc/go.mod" > "$MOD"
+  cp "$VERIF/mc/go.sum" "$SCR/go.sum" 2>/dev/null
+  (cd "$VERIF/tools/instr" && go build -o "$BIN/instr.$SFX" .) || { echo "ERROR build of instr failed"; exit 2; }
+  local ov=$SCR/overlay
   rm -rf "$ov"; mkdir -p "$ov"
-  "$BIN/instr" -repo "$REPO" -out "$ov" -shim "$VERIF/shim/vsched" > "$ov/instr.log" 2>&1 || { cat "$ov/instr.log"; echo "ERROR instrumentation failed"; exit 2; }
-  (cd "$VERIF/mc" && go build -modfile="$mod" -tags "verif e3" -overlay "$ov/overlay.json" -o "$BIN/mcs" ./cmd/mcs) || { echo "ERROR build of mcs failed"; exit 2; }
+  "$BIN/instr.$SFX" -repo "$REPO" -out "$ov" -shim "$VERIF/shim/vsched" > "$ov/instr.log" 2>&1 || { cat "$ov/instr.log"; echo "ERROR instrumentation failed"; exit 2; }
+  (cd "$VERIF/mc" && go build -modfile="$MOD" -tags "verif e3" -overlay "$ov/overlay.json" -o "$BIN/mcs.$SFX" ./cmd/mcs) || { echo "ERROR build of mcs failed"; exit 2; }
   export VERIF_INSTR_REPORT="$ov/report.json"
 }
 
@@ -43,18 +55,17 @@ case "${1:-}" in
     ;;
   C20)
     build_sched
-    exec "$BIN/mcs" check "$1" "${2:-quick}"
+    run "$BIN/mcs.$SFX" check "$1" "${2:-quick}"; exit $?
     ;;
   C16)
     build_sched
     # (c) free-running net: same harness bodies, native build under the race detector
-    tag=$(echo "$REPO" | md5sum | cut -c1-8)
-    (cd "$VERIF/mc" && go build -modfile="$BUILD/go.$tag.mod" -race -tags verif -o "$BIN/mcrace" ./cmd/mcrace) || { echo "ERROR build of mcrace failed"; exit 2; }
+    (cd "$VERIF/mc" && go build -modfile="$MOD" -race -tags verif -o "$BIN/mcrace.$SFX" ./cmd/mcrace) || { echo "ERROR build of mcrace failed"; exit 2; }
     rounds=150; [ "${2:-quick}" = thorough ] && rounds=3000
     OUTD=${VERIF_OUT:-$VERIF}; mkdir -p "$OUTD/replays/C16"
-    res=$BUILD/race.$tag.json; log=$OUTD/replays/C16/race-detector-report.txt
+    res=$SCR/race.json; log=$OUTD/replays/C16/race-detector-report.txt
     rm -f "$res"
-    GORACE="halt_on_error=1" timeout 1200 "$BIN/mcrace" $rounds "${VERIF_SEED:-1}" "$res" 2> "$log"; rc=$?
+    GORACE="halt_on_error=1" run timeout 1200 "$BIN/mcrace.$SFX" $rounds "${VERIF_SEED:-1}" "$res" 2> "$log"; rc=$?
     if [ $rc -eq 66 ] || grep -q "WARNING: DATA RACE" "$log"; then
       echo "{\"violation\":\"free-running/data-race\",\"replay\":\"$log\",\"rounds\":$rounds}" > "$res"
     elif [ $rc -eq 67 ]; then
@@ -65,29 +76,25 @@ case "${1:-}" in
       rm -f "$log"
     fi
     export VERIF_EXTRA_RESULT="$res"
-    exec "$BIN/mcs" check "$1" "${2:-quick}"
+    run "$BIN/mcs.$SFX" check "$1" "${2:-quick}"; exit $?
     ;;
   replay)
     if grep -qE '"property": *"C(16|20)"' "$2"; then
       build_sched
-      exec "$BIN/mcs" replay "$2"
+      run "$BIN/mcs.$SFX" replay "$2"; exit $?
     fi
     build mc
-    exec "$BIN/mc" replay "$2"
+    run "$BIN/mc.$SFX" replay "$2"; exit $?
     ;;
   C19)
     build mc
-    tag=$(echo "$REPO" | md5sum | cut -c1-8)
-    (cd "$VERIF/mc" && go build -modfile="$BUILD/go.$tag.mod" -tags verif -o "$BIN/gophersat.$tag" github.com/crillab/gophersat) || { echo "ERROR build of gophersat failed"; exit 2; }
-    export VERIF_GOPHERSAT_BIN="$BIN/gophersat.$tag"
-    rm -rf "$BUILD/cli"
-    "$BIN/mc" check "$1" "${2:-quick}"; rc=$?
-    rm -rf "$BUILD/cli"
-    exit $rc
+    (cd "$VERIF/mc" && go build -modfile="$MOD" -tags verif -o "$BIN/gophersat.$SFX" github.com/crillab/gophersat) || { echo "ERROR build of gophersat failed"; exit 2; }
+    export VERIF_GOPHERSAT_BIN="$BIN/gophersat.$SFX"
+    run "$BIN/mc.$SFX" check "$1" "${2:-quick}"; exit $?
     ;;
   C*)
     build mc
-    exec "$BIN/mc" check "$1" "${2:-quick}"
+    run "$BIN/mc.$SFX" check "$1" "${2:-quick}"; exit $?
     ;;
   *)
     echo "usage: $0 <Cxx> quick|thorough | replay <file> | setup"; exit 2;;
